@@ -22,12 +22,12 @@ def showRes (r : List (Nat × Nat)) : String :=
 def parseQh (s : String) : Option (List Nat) :=
   if s == "-" || s == "" then some [] else (s.splitOn ".").mapM String.toNat?
 
-def parseKeys (scope : Nat) (s : String) : Option (List QKey) :=
-  if s == "-" || s == "" then some [] else
-  (s.splitOn "/").mapM fun q => (parseQh q).map fun l => (scope, l)
+/-- similarity order: stored query embeddings (bits, `.`-separated) separated by `/` -/
+def parseOrder (s : String) : Option (List (List Nat)) :=
+  if s == "-" || s == "" then some [] else (s.splitOn "/").mapM parseQh
 
 /-- `scope;qh;distbits|x` records separated by `/` -/
-def parseDists (s : String) : Option (List (QKey × Option Nat)) :=
+def parseDists (s : String) : Option (List ((Nat × List Nat) × Option Nat)) :=
   if s == "-" || s == "" then some [] else
   (s.splitOn "/").mapM fun r =>
     match r.splitOn ";" with
@@ -39,9 +39,9 @@ def parseDists (s : String) : Option (List (QKey × Option Nat)) :=
     | _ => none
 
 /-- an entry whose decision sits within 64 ulps of the boundary -/
-def nearBoundary (c : QCache) (dists : List (QKey × Option Nat)) : Bool :=
+def nearBoundary (c : QCache) (dists : List ((Nat × List Nat) × Option Nat)) : Bool :=
   c.entries.any fun e =>
-    match dists.find? (·.1 == e.key), QCache.worstKey e.res with
+    match dists.find? (·.1 == (e.key.1, e.q)), QCache.worstKey e.res with
     | some (_, some d), some w =>
       let k := QCache.f32Key d
       (if k ≥ w then k - w else w - k) ≤ 64 && e.res.length ≥ e.reqK
@@ -57,17 +57,17 @@ def step (st : Option QCache) (line : String) : Option QCache × String :=
   | _, none => (none, "bad-op:no-cfg")
   | "store", some c =>
     match natField? fs "scope", (field? fs "qh").bind parseQh, natField? fs "k",
-          (field? fs "res").bind parseRes, field? fs "gen" with
-    | some sc, some qh, some k, some res, some g =>
+          (field? fs "res").bind parseRes, field? fs "gen", (field? fs "qb").bind parseQh with
+    | some sc, some qh, some k, some res, some g, some qb =>
       let eg : Option (Option Nat) := if g == "-" then some none else g.toNat?.map some
       match eg with
-      | some eg => let (c', b) := c.store (sc, qh) k res eg; (some c', showBool b)
+      | some eg => let (c', b) := c.store (sc, qh) qb k res eg; (some c', showBool b)
       | none => (st, "bad-op")
-    | _, _, _, _, _ => (st, "bad-op")
+    | _, _, _, _, _, _ => (st, "bad-op")
   | "get", some c =>
     match natField? fs "scope", (field? fs "qh").bind parseQh, natField? fs "k" with
     | some sc, some qh, some k =>
-      match (field? fs "order").bind (parseKeys sc) with
+      match (field? fs "order").bind parseOrder with
       | some order =>
         let (c', r) := c.get (sc, qh) k order
         (some c', match r with | none => "none" | some res => s!"some {showRes res}")
